@@ -56,9 +56,9 @@ CLAIMS = {
     text='Theorems: C06s.v (4) - an offset-sanity predicate holds for a new reader and is preserved by next / read_set / seek / set_policy for EVERY policy '
          '(refusing, non-growing, scripted) and EVERY fault script, and no call from a sane state returns a panic outcome (both formats); C06f.v (17) - an I/O error '
          'while refilling is final (reader Finished, later reads report the end), a failed source seek leaves the reader unchanged; the refinement theorems '
-         '(C01/C02/C04) give: every record returned in fault-free histories is a record of the input, in order, no fuel exhaustion. Termination with refusing policies '
-         'and faults and genuineness after faults are covered by the run (10 s watchdog, membership oracle); one KNOWN FINDING (in-buffer seek after a failed refill, '
-         'KNOWN_FINDINGS.txt). Tie: random inputs incl. binary x faults x refusing/scripted policies x mixed histories with post-error calls, debug build.',
+         '(C01/C02/C04) give: every record returned in fault-free histories is a record of the input, in order, no fuel exhaustion. C06f also proves that after a failed '
+         'refill the buffer is empty, so a later seek always reads again (this closed the last known finding). Termination with refusing policies and faults, and '
+         'genuineness after faults, are covered by the run (10 s watchdog, membership oracle). Tie: random inputs incl. binary x faults x refusing/scripted policies x mixed histories with post-error calls, debug build.',
     technique='Coq invariant proof (sanity preserved for all policies/faults => no panic) + refinement corollaries + fault-injecting differential run with membership oracle',
     ref='5 C06'),
  'C09': dict(
